@@ -121,7 +121,9 @@ def classify_pin(c, env):
         fn, args, kwargs = native_by_name(c.build, env2)
     else:
         sig = inspect.signature(f)
-        kwargs = dict(native_by_name(c.call, env2)) if c.call is not None else {k: v for k, v in env2.items() if k in sig.parameters}
+        kwargs = {k: v for k, v in env2.items() if k in sig.parameters}
+        if c.call is not None:
+            kwargs.update(native_by_name(c.call, env2))
         kwargs.update(c.kwargs)
         fn, args = f, []
     try:
